@@ -260,8 +260,10 @@ class ApertureMask:
         multiple associated arrays (e.g., data and error arrays). It is
         used in this way by the `PixelAperture.do_photometry` method.
         """
-        if mask is not None and mask.shape != shape:
-            raise ValueError('mask and data must have the same shape')
+        if mask is not None:
+            mask = np.asanyarray(mask)  # array_like (e.g., nested list)
+            if mask.shape != shape:
+                raise ValueError('mask and data must have the same shape')
 
         slc_large, slc_small = self.get_overlap_slices(shape)
         if slc_large is None:  # no overlap
@@ -301,6 +303,7 @@ class ApertureMask:
             input ``data``, the result will be an empty array with shape
             (0,).
         """
+        data = np.asanyarray(data)  # array_like (e.g., nested list)
         slc_large, aper_weights, pixel_mask = self._get_overlap_cutouts(
             data.shape, mask=mask)
 
